@@ -30,6 +30,13 @@ def check(ctx, cfg):
     r5(ctx, cfg)
     r6(ctx, cfg)
     r7(ctx, cfg)
+    r_overlay(ctx, cfg)
+
+
+def r_overlay(ctx, cfg):
+    """premise shared with C06 (the transaction overlay is faithful), under this property's id: the funds moved before an entry point runs are visible to it only through the pending writes of the transaction"""
+    from rules import C06
+    C06.overlay_premise(ctx, cfg, "C05.R8")
 
 
 def r7(ctx, cfg):
@@ -37,7 +44,7 @@ def r7(ctx, cfg):
     sender before it credits the recipient - otherwise a contract attaching funds to a call to itself is credited first and the
     debit of the inflated balance succeeds (the C09.R1 obligations on BankKeeper::send under C05's id)"""
     from rules import C09
-    C09.r1(ctx, cfg, R="C05.R7")
+    C09.ledger_premise(ctx, cfg, "C05.R7")
 
 
 def r5(ctx, cfg):
@@ -63,36 +70,36 @@ def _msg_funds(o, fkey):
     return just(o, lambda x: is_param(x, "funds"))
 
 
-def r1_r2(ctx, cfg):
+def r1_r2(ctx, cfg, R1="C05.R1", R2="C05.R2"):
     F, P = cfg.facts, cfg.prov
     for fkey, callx, addr_idx in ((W + "execute_wasm", W + "call_execute", 3),
                                   (W + "process_wasm_msg_instantiate", W + "call_instantiate", 1)):
-        f = ctx.need_fn("C05.R1", fkey)
+        f = ctx.need_fn(R1, fkey)
         if f is None:
             continue
         cf = cfg_of(f)
         aggs = [(b, i, st) for b, i, st in f.stmts()
                 if st["k"] == "assign" and st["rv"].get("k") == "aggregate" and st["rv"].get("adt") == "cosmwasm_std::MessageInfo"]
-        ctx.ob("C05.R1", fkey, "one-MessageInfo", len(aggs) == 1, "expected one MessageInfo aggregate, found %d" % len(aggs), fn=f,
+        ctx.ob(R1, fkey, "one-MessageInfo", len(aggs) == 1, "expected one MessageInfo aggregate, found %d" % len(aggs), fn=f,
                sample="1")
         sends = q.calls(f, SEND)
         calls = q.calls(f, callx)
-        ctx.ob("C05.R2", fkey, "one-send-one-call", len(sends) == 1 and len(calls) == 1,
+        ctx.ob(R2, fkey, "one-send-one-call", len(sends) == 1 and len(calls) == 1,
                "expected one send and one %s, found %d/%d" % (callx, len(sends), len(calls)), fn=f, sample="1/1")
         if len(aggs) != 1 or len(sends) != 1 or len(calls) != 1:
             continue
         b, i, st = aggs[0]
         o = P.rvalue(f, st["rv"], (b, i))
         d = dict(o[2])
-        ctx.ob("C05.R1", fkey, "MessageInfo.sender=sender", is_param(d["sender"], "sender"),
+        ctx.ob(R1, fkey, "MessageInfo.sender=sender", is_param(d["sender"], "sender"),
                "MessageInfo.sender is %s, expected the message's actual sender" % fmt(d["sender"]), fn=f, line=st["line"],
                sample=fmt(d["sender"]))
-        ctx.ob("C05.R1", fkey, "MessageInfo.funds=msg.funds", _msg_funds(d["funds"], fkey),
+        ctx.ob(R1, fkey, "MessageInfo.funds=msg.funds", _msg_funds(d["funds"], fkey),
                "MessageInfo.funds is %s, expected the funds attached to the message" % fmt(d["funds"]), fn=f, line=st["line"],
                sample=fmt(d["funds"]))
         sb, stt = sends[0]
         sargs = P.call_args(f, stt, sb)
-        ctx.ob("C05.R1", fkey, "funds-shown=funds-moved", same_origin(sargs[7], d["funds"]),
+        ctx.ob(R1, fkey, "funds-shown=funds-moved", same_origin(sargs[7], d["funds"]),
                "funds moved (%s) differ from funds shown (%s)" % (fmt(sargs[7]), fmt(d["funds"])), fn=f, line=stt["line"],
                sample="send amount == MessageInfo.funds == %s" % fmt(d["funds"]))
         cb, ct = calls[0]
@@ -100,20 +107,20 @@ def r1_r2(ctx, cfg):
         # the MessageInfo handed to the contract is that aggregate
         info_idx = 6
         info = peel(cargs[info_idx])
-        ctx.ob("C05.R1", fkey, "call-receives-that-MessageInfo", info[0] == "agg" and info[1].startswith("cosmwasm_std::MessageInfo"),
+        ctx.ob(R1, fkey, "call-receives-that-MessageInfo", info[0] == "agg" and info[1].startswith("cosmwasm_std::MessageInfo"),
                "%s receives %s as info" % (callx, fmt(info)[:100]), fn=f, line=ct["line"], sample="info = MessageInfo{..}")
         # R2: send(sender -> callee address) dominates the call and is `?`-propagated
-        ctx.ob("C05.R2", fkey, "send-from-sender", is_param(sargs[5], "sender"), "send debits %s" % fmt(sargs[5]), fn=f,
+        ctx.ob(R2, fkey, "send-from-sender", is_param(sargs[5], "sender"), "send debits %s" % fmt(sargs[5]), fn=f,
                line=stt["line"], sample=fmt(sargs[5]))
-        ctx.ob("C05.R2", fkey, "send-to-callee", same_origin(sargs[6], cargs[addr_idx]),
+        ctx.ob(R2, fkey, "send-to-callee", same_origin(sargs[6], cargs[addr_idx]),
                "send credits %s but the callee is %s" % (fmt(sargs[6])[:80], fmt(cargs[addr_idx])[:80]), fn=f, line=stt["line"],
                sample="recipient == callee address")
-        ctx.ob("C05.R2", fkey, "send-on-same-storage", is_param(sargs[2], "storage") and is_param(cargs[2 if addr_idx == 3 else 3], "storage"),
+        ctx.ob(R2, fkey, "send-on-same-storage", is_param(sargs[2], "storage") and is_param(cargs[2 if addr_idx == 3 else 3], "storage"),
                "send/call do not share the storage parameter", fn=f, line=stt["line"], sample="both on param storage")
         conds = q.dominating_conditions(P, f, cb)
         ok = any(c[0] == "variant_in" and c[2] in (("Continue",), ("Ok",)) and peel(c[1])[0] == "call" and peel(c[1])[1] == SEND
                  for e, c in conds)
-        ctx.ob("C05.R2", fkey, "funds-moved-before-call", ok,
+        ctx.ob(R2, fkey, "funds-moved-before-call", ok,
                "%s is not dominated by the success edge of `self.send(..)?`" % callx, fn=f, line=ct["line"],
                sample="call dominated by Continue(send(..))")
 
